@@ -76,6 +76,9 @@ def _subtree_as_matrix(node: OpTreeNode, opmap: Mapping) -> np.ndarray:
     """
     Contract the (sub-)tree to obtain its matrix representation.
     """
+    if node.is_leaf():
+        # empty operator product
+        return np.identity(1)
     op_sum = np.zeros((1, 1))
     for edge in node.children:
         if edge.node.is_leaf():
